@@ -178,6 +178,7 @@ def run(args):
     solve_time = time.time() - ts
 
     by_clause = {}
+    mustfail = {}
     counts = {'obligations': 0, 'discharged': 0, 'covers': 0, 'covers_sat': 0,
               'mustfail': 0, 'mustfail_refuted': 0}
     by_backend = {}
@@ -195,11 +196,8 @@ def run(args):
                 checker_failures.append('vacuous: %s is unreachable / precondition contradictory' % vc.name)
             continue
         if vc.expect == 'refutable':
-            counts['mustfail'] += 1
-            if r['result'] == 'sat':
-                counts['mustfail_refuted'] += 1
-            elif r['result'] == 'unsat':
-                checker_failures.append('must-fail obligation %s was PROVED: engine or contract unsound' % vc.name)
+            mf = mustfail.setdefault(clause_name(vc), {'sat': 0, 'unsat': 0, 'unknown': 0})
+            mf[r['result'] if r['result'] in ('sat', 'unsat') else 'unknown'] += 1
             continue
         counts['obligations'] += 1
         cn = clause_name(vc)
@@ -216,6 +214,14 @@ def run(args):
             ent['sat'].append((vc, r))
         else:
             ent['unknown'].append((vc, r))
+    # a must-fail clause has to be refuted on at least one path; proved on every path = the
+    # engine (or the contract) is unsound
+    for cn, mf in sorted(mustfail.items()):
+        counts['mustfail'] += 1
+        if mf['sat']:
+            counts['mustfail_refuted'] += 1
+        elif mf['unknown'] == 0:
+            checker_failures.append('must-fail obligation %s was PROVED on every path: engine or contract unsound' % cn)
     for fr in frame_results:
         counts['obligations'] += fr['checked']
         ent = by_clause.setdefault(fr['name'], {'vcs': fr['checked'], 'unsat': 0, 'sat': [], 'unknown': [],
@@ -282,6 +288,33 @@ def run(args):
                                   r['result'] + ('/' + r['reason'] if r['reason'] else '')
                                   for vc, r in e['sat'] + e['unknown'])))) +
                               ('' if in_ledger else ' (not in the baseline ledger)')})
+    # functions the VC generator could not handle (construct outside the subset) or whose VCs the
+    # solvers left open: consult the bounded falsifier for every ledger clause of that function
+    for u in list(undecided):
+        if not u['obligation'].startswith('subset:'):
+            continue
+        fn = u['obligation'][len('subset:'):]
+        quals = [q for q in functions if q.split(':')[1] == fn]
+        led = [c for c in ledger if c.endswith(':' + fn)]
+        if not quals or not led:
+            continue
+        rfile = os.path.join(outdir, 'subset_%s.json' % re.sub(r'[^A-Za-z0-9_.-]', '_', fn))
+        payload = {'property': pid, 'obligation': '*:' + fn, 'function': quals[0], 'tree': tree_id(),
+                   'clause': 'any baseline clause of %s (VC generation was not possible: %s)' % (fn, u['reason']),
+                   'ledger_clauses': led, 'models': [], 'solver': [{'result': 'out-of-subset', 'reason': u['reason']}]}
+        json.dump(payload, open(rfile, 'w'), indent=1)
+        rp = run_replay(rfile)
+        payload['replay'] = rp
+        json.dump(payload, open(rfile, 'w'), indent=1, default=str)
+        if rp and rp.get('verdict') == 'reproduced':
+            info = {'obligation': '%s:%s' % ('|'.join(f for f in rp.get('failing_clauses', []) if f != '*'), fn),
+                    'function': quals[0], 'replay_file': os.path.relpath(rfile, HERE), 'replay': rp}
+            kf = match_known(known, pid, info['obligation'], rp)
+            if kf is not None:
+                known_hits.append((kf, info))
+            else:
+                violations.append((info, ''))
+            undecided.remove(u)
     for kf, info in known_hits:
         print('KNOWN-FINDING: property=%s %s [%s]' % (pid, kf['what'], info['obligation']))
     code = 0
